@@ -92,6 +92,56 @@ func checkC05(p *core.Program, r *core.Report) {
 		}
 	}
 
+	// the attempt counter is only advanced on paths that also schedule the attempt it belongs to
+	fCnt := p.Field("hub", "Hub", "connectionAttemptCounter")
+	if fCnt != nil {
+		bumps := core.NewMay(p, false, func(in ssa.Instruction) bool {
+			mu, ok := in.(*ssa.MapUpdate)
+			if !ok {
+				return false
+			}
+			f, _ := core.LoadedField(mu.Map)
+			return f == fCnt
+		})
+		mayDial := core.NewMay(p, true, func(in ssa.Instruction) bool { return core.IsStaticCall(in, dialName) })
+		schedules := func(in ssa.Instruction) bool {
+			switch in.(type) {
+			case *ssa.Go, *ssa.Call:
+				return mayDial.Instr(in)
+			}
+			return false
+		}
+		nb := 0
+		for _, fn := range a.fns {
+			// only the coordinating level: functions that both bump (through a callee) and schedule
+			core.EachInstr(fn, func(in ssa.Instruction) {
+				c, ok := in.(*ssa.Call)
+				if !ok || c.Call.StaticCallee() == nil || !bumps.Fn(c.Call.StaticCallee()) || mayDial.Fn(c.Call.StaticCallee()) {
+					return
+				}
+				has := false
+				core.EachInstr(fn, func(y ssa.Instruction) {
+					if schedules(y) {
+						has = true
+					}
+				})
+				if !has {
+					return
+				}
+				nb++
+				key := "attempt counter advanced in " + p.FnName(fn)
+				if bad := core.PathSearch(fn, in, core.IsReturn, schedules, nil); bad != nil {
+					r.Fail(R2, key, p.Pos(in.Pos()), "the attempt counter is advanced on a path that returns without scheduling an attempt: the attempt that is already pending no longer matches the counter when it fires and is dropped silently - nobody dials")
+				} else {
+					r.OK(R2, key, p.Pos(in.Pos()), "every path from the increment schedules the attempt")
+				}
+			})
+		}
+		if nb == 0 {
+			r.Fail(R2, "attempt counter advance", "", "no coordinating function advances the attempt counter")
+		}
+	}
+
 	// ---- R3
 	hcc := p.Method("hub", "Hub", "HandleConnectionClosed")
 	mAnn := p.IfaceMethod("api", "MdnsInterface", "AnnounceMdnsEntry")
@@ -254,6 +304,13 @@ func checkC05(p *core.Program, r *core.Report) {
 	}
 	// ---- R5
 	checkShipCloseOnce(p, r, R5, R5)
+	// ---- R6 registration is recorded; dialling is started for paired-or-queued peers
+	const R6 = "C05.R6 registration-recorded-and-dial-gated"
+	r.Rule(R6, "RegisterRemoteSKI records trust on every path; the dial gate passes exactly paired-or-queued SKIs (rule shared with C10.R1)")
+	q := connStateEdge(p, "ConnectionStateQueued")
+	gQueuedConst = p.Const("api", "ConnectionStateQueued")
+	queuedEdgeGlobal = q
+	checkDialGate(p, r, a, R6, orEdges(pairedEdge, q))
 }
 
 // checkKeepRule discovers the double-connection decision function and
